@@ -240,6 +240,7 @@ struct Child {
     done: Arc<AtomicU64>,
     out: PathBuf,
     start: u64,
+    reader: Option<std::thread::JoinHandle<()>>,
 }
 
 fn now_ms(t0: Instant) -> u64 {
@@ -272,7 +273,7 @@ fn spawn_worker(prop: &str, tier: Tier, seed: u64, start: u64, step: u64, end: u
     let done = Arc::new(AtomicU64::new(0));
     let so = proc.stdout.take().unwrap();
     let (lb, lt, dn) = (last_begin.clone(), last_time.clone(), done.clone());
-    std::thread::spawn(move || {
+    let reader = std::thread::spawn(move || {
         for line in BufReader::new(so).lines().map_while(Result::ok) {
             if let Some(rest) = line.strip_prefix("BEGIN ") {
                 if let Ok(i) = rest.trim().parse::<i64>() {
@@ -284,7 +285,7 @@ fn spawn_worker(prop: &str, tier: Tier, seed: u64, start: u64, step: u64, end: u
             }
         }
     });
-    Child { proc, last_begin, last_time, done, out: out.to_path_buf(), start }
+    Child { proc, last_begin, last_time, done, out: out.to_path_buf(), start, reader: Some(reader) }
 }
 
 pub struct RunOpts {
@@ -332,7 +333,17 @@ pub fn run_check<P: Property>(o: &RunOpts) -> i32 {
                 still.push(c);
                 continue;
             }
-            let clean = !hung && status.map(|s| s.success()).unwrap_or(false) && c.done.load(Ordering::SeqCst) == 1;
+            // the process is gone: let the reader thread drain its stdout so that
+            // the last announced run is known exactly
+            if let Some(h) = c.reader.take() {
+                let _ = h.join();
+            }
+            // A worker that exits with status 0 has written its result file before
+            // exiting; the "DONE" line on its stdout may still be in flight to the
+            // reader thread, so it is not required here (requiring it was a race that
+            // produced a spurious "process-death" once in ~10^2 checks).
+            let clean = !hung && status.map(|s| s.success()).unwrap_or(false) && c.out.exists();
+            let _ = &c.done;
             if clean {
                 match std::fs::read(&c.out).ok().and_then(|b| serde_json::from_slice::<WorkerOut>(&b).ok()) {
                     Some(wo) => {
